@@ -85,7 +85,8 @@ class C18(Prop):
                   'output_files is C22/C23; shell execution of the command is not modelled.')
     budget = {'quick': 1500, 'thorough': 25000}
     search_budget = {'quick': 3000, 'thorough': 20000}
-    rule = ('case = a DSL program: read_input / read_input_group (1-3 files), 1-4 bash jobs with optional declare_resource_group, 1-2 commands '
+    rule = ('case = a DSL program: read_input / read_input_group (1-3 files), 1-4 bash jobs (names: none, short, equal, 240-260 characters, '
+            'with characters safe_str rewrites) with optional declare_resource_group, 1-2 commands '
             'each built from text fragments and references (inputs, group members, own and earlier jobs\' resources, whole groups), '
             'add_extension, write_output; executed on the real classes, then ServiceBackend._async_run with a recording client; compared per '
             'job: interpolated commands, input_files, output_files, parents, input-group symlinks (sets sorted, tmpdirs canonicalised); '
@@ -128,6 +129,16 @@ class C18(Prop):
     ATTRS = ['ofile', 'out', 'x', 'tmp1', 'res_2']
     TEMPLATES = ['{root}.bed', '{root}.bim', '{root}', 'fixed.txt', '{root}.v{root}']
 
+    NAMES = [None, 'p', 'c', 'c', 'align', 'my job!', 'x-1', 'a/b c.d', 'x_y-z', 'p']
+
+    def _job_name(self, rng, long_name):
+        r = rng.random()
+        if r < 0.22:
+            return long_name                                   # equal long names within one program
+        if r < 0.27:
+            return long_name[:rng.choice([200, 243, 246])] + rng.choice(['', 'x', '/y'])
+        return rng.choice(self.NAMES)                          # short, often equal, some with characters safe_str rewrites
+
     def _random_case(self, rng):
         prog = []
         handles = []          # ('file',) | ('group', idents)
@@ -150,9 +161,11 @@ class C18(Prop):
                 prog.append({'op': 'igroup', 'files': [[i, p] for i, p in zip(idents, paths)]})
                 handles.append(('group', idents))
         njobs = rng.choice([1, 2, 2, 3, 3, 4])
+        # one long name per program: jobs created in a per-sample loop share it (equal names, 240..260 characters)
+        long_name = ('sample-NA12878_chr20.' * 14)[:rng.choice([240, 244, 245, 246, 247, 248, 249, 250, 251, 255, 260])]
         jobs = []             # per job: dict(attrs={name: 'file'|('group', idents)}, valid=set(names), ext=set())
         for j in range(njobs):
-            name = rng.choice([None, 'p', 'c', 'align', 'my job!', 'x-1'])
+            name = self._job_name(rng, long_name)
             prog.append({'op': 'job', 'name': name})
             info = {'attrs': {}, 'valid': set(), 'ext': set()}
             jobs.append(info)
@@ -606,6 +619,14 @@ class C18(Prop):
                         cross += 1
             if s['op'] in ('igroup', 'rgroup', 'ext', 'out'):
                 tags.append('has-' + s['op'])
+        names = [s['name'] for s in prog if s['op'] == 'job']
+        if any(n and len(n) >= 240 for n in names):
+            tags.append('has-long-job-name')
+        named = [n for n in names if n]
+        if len(set(named)) < len(named):
+            tags.append('has-equal-job-names')
+        if sum(1 for n in named if len(n) >= 240 and named.count(n) > 1) > 1:
+            tags.append('has-equal-long-job-names')
         tags = sorted(set(tags))
         tags.append(f'cross-job-refs={min(cross, 3)}')
         nontrivial = line.startswith('ok') and cross > 0
